@@ -71,6 +71,9 @@ class _Beta(ast.NodeTransformer):
     def visit_Subscript(self, n: ast.Subscript):
         self.generic_visit(n)
         v, k = n.value, n.slice
+        if isinstance(v, ast.Tuple) and isinstance(k, ast.Constant) and isinstance(k.value, int) and not isinstance(k.value, bool) \
+                and not any(isinstance(x, ast.Starred) for x in v.elts) and -len(v.elts) <= k.value < len(v.elts):
+            return v.elts[k.value]          # (a, b)[0]  ->  a
         if not _const_key(k):
             return n
         if isinstance(v, ast.DictComp) and len(v.generators) == 1 and not v.generators[0].ifs and isinstance(v.generators[0].target, ast.Name) \
@@ -92,7 +95,7 @@ def subst(e: ast.expr, env: Optional[Dict[str, ast.expr]]) -> ast.expr:
     out = e
     for _ in range(4):  # chains of temporaries
         new = Subst(env).visit(clone(out))
-        if any(isinstance(x, (ast.DictComp, ast.Dict)) for x in ast.walk(new)):
+        if any(isinstance(x, (ast.DictComp, ast.Dict)) or (isinstance(x, ast.Subscript) and isinstance(x.value, ast.Tuple)) for x in ast.walk(new)):
             new = _Beta().visit(new)
         if ast.dump(new) == ast.dump(out):
             break
